@@ -11,10 +11,10 @@ PROP = Property(
     trusted_base=["Coq 8.16.1 kernel + coqc",
                   "extraction (ExtrOcamlBasic only, no Extract Constant) + OCaml 4.13.1",
                   "gen/regen.py constants (status codes, record types, AF_*, INT_MAX) compiled against the working tree",
-                  "harness/legacy_drv.c (record dump through the public getters, canonical dump of every legacy result, guard elements, allocation ledger), ocaml/legacy_drv.ml, gen/legacygen.py",
+                  "harness/legacy_drv.c (record dump through the public getters, canonical dump of every legacy result, guard elements, allocation ledger, allocation-failure sweep), ocaml/legacy_drv.ml, gen/legacygen.py",
                   "clang 14 ASan/UBSan/LSan"],
     assumptions=["the wire parser ares_dns_parse is not modelled: its verdict and the record it builds (as seen through the public getters) are inputs of the model",
-                 "allocation always succeeds in the model (ENOMEM paths are not modelled)",
+                 "allocator answers are an input of the ledger model (coq/Legacy/LegacyMem.v: every conversion allocation can fail; the allocations of ares_dns_parse itself are outside the model); the data models (Legacy.v) assume success",
                  "legacy parsers are hand-modelled (coq/Legacy/Legacy.v); the tie to the C code is the correspondence run over every parser and several caller capacities per message"],
     rule="generated DNS responses (valid stream: target type mixed with CNAME chains, other types/classes, foreign owners, duplicates, TTL extremes; malformed stream: truncation, bit flips, garbage, bad counts); every message goes through all 12 legacy entry points; non-trivial = parsed message with a non-empty answer section, or a rejected message; distinct by case text",
 )
